@@ -402,16 +402,17 @@ pub fn strftime(ts: time::OffsetDateTime, fmt: &str) -> Result<String, DateForma
                 let nanos = ts.nanosecond();
                 let digits = padding.unwrap_or(if fmt_char == 'L' { 3 } else { 9 });
 
-                w!(
-                    output,
-                    "{:0<width$}",
-                    if digits <= 9 {
-                        nanos / 10u32.pow(9 - digits as u32)
-                    } else {
-                        nanos
-                    },
-                    width = digits
-                );
+                if digits <= 9 {
+                    // the leading `digits` digits of the zero-padded nanoseconds
+                    w!(
+                        output,
+                        "{:0>width$}",
+                        nanos / 10u32.pow(9 - digits as u32),
+                        width = digits
+                    );
+                } else {
+                    w!(output, "{:09}{:0<width$}", nanos, "", width = digits - 9);
+                }
 
                 continue;
             }
